@@ -34,14 +34,15 @@ theorem sampleMulti_map_const (d : Rat) (cvs : List (Chan × Rat)) (c : Chan) (t
 /-- what `constFromMapping` builds -/
 theorem constFromMapping_spec {d : Rat} {cvs : List (Chan × Rat)} {w : Wf}
     (h : constFromMapping d cvs = .ok w) :
-    w.duration = d ∧ w.constDict = some cvs ∧ ∀ c v t, cvs.lookup c = some v → w.sample c t = some v := by
+    w.duration = d ∧ w.constDict = some cvs ∧ w.channels = cvs.map (·.1) ∧
+      ∀ c v t, cvs.lookup c = some v → w.sample c t = some v := by
   unfold constFromMapping at h
   match cvs, h with
   | [], h => simp at h
   | [(ch, v)], h =>
     simp only [Except.ok.injEq] at h
     subst h
-    refine ⟨by simp [Wf.duration], by simp [Wf.constDict], ?_⟩
+    refine ⟨by simp [Wf.duration], by simp [Wf.constDict], by simp [Wf.channels], ?_⟩
     intro c v' t hl
     simp only [List.lookup_cons, List.lookup_nil] at hl
     by_cases hk : c == ch
@@ -58,9 +59,11 @@ theorem constFromMapping_spec {d : Rat} {cvs : List (Chan × Rat)} {w : Wf}
     · split at h
       · simp only [Except.ok.injEq] at h
         subst h
-        refine ⟨by simp [Wf.duration, Wf.firstDuration], ?_, ?_⟩
+        refine ⟨by simp [Wf.duration, Wf.firstDuration], ?_, ?_, ?_⟩
         · have := constDictAll_map_const d (x :: y :: rest)
           simpa [Wf.constDict] using this
+        · have := channelsAll_map_const d (x :: y :: rest)
+          simpa [Wf.channels] using this
         · intro c v t hl
           have := sampleMulti_map_const d (x :: y :: rest) c t
           simp only [List.map_cons] at this
@@ -85,14 +88,14 @@ theorem leaf_windows (w : Wf) : (leaf w).windows = [] := by
 
 /-- one leaf (with the windows of the atom in front of it) against a pulse -/
 theorem rel_single_leaf (w : Wf) (ms : List Window) (d : Rat) (hd : 0 < d) (hw : w.duration = d)
-    (chans : List (Chan × PL)) (hne : chans ≠ [])
+    (chans : List (Chan × PL)) (hne : chans ≠ []) (hch : ∀ x, x ∈ w.channels ↔ x ∈ chans.map (·.1))
     (hpl : ∀ c pl, chans.lookup c = some pl →
       PL.dur pl = d ∧ pl.pos ∧ ∀ t, 0 ≤ t → t < d → w.sample c t = PL.at pl t) :
     Rel ((if ms.isEmpty then [] else [Item.measure ms]) ++ [Item.node (leaf w)])
       { dur := d, chans := chans, windows := ms } := by
   have hn : nodesOf (if ms.isEmpty then [] else [Item.measure ms]) = [] := by
     by_cases hm : ms.isEmpty <;> simp [hm, nodesOf]
-  refine ⟨?_, ?_, ?_, ?_, ?_, ?_, ?_⟩
+  refine ⟨?_, ?_, ?_, ?_, ?_, ?_, ?_, ?_⟩
   · by_cases hm : ms.isEmpty
     · simp only [hm, if_true, List.nil_append]; exact Blocks.node _ Blocks.nil
     · simp only [hm]; exact Blocks.meas ms _ Blocks.nil
@@ -118,6 +121,12 @@ theorem rel_single_leaf (w : Wf) (ms : List Window) (d : Rat) (hd : 0 < d) (hw :
       subst this
       simp [itemsWindows, nodesOf, leaf_windows]
     · simp [hm, itemsWindows, nodesOf, leaf_windows, map_shiftW_zero]
+  · intro cs hcs x
+    rw [nodesOf_append, hn] at hcs
+    simp only [List.nil_append, nodesOf, Loop.leafChannelsList, leaf, Loop.leafChannels, List.append_nil,
+      List.mem_singleton] at hcs
+    subst hcs
+    simpa [Pulse.chanNames] using hch x
 
 theorem atomOK_const (id : Option String) (dur : Expr) (amps : List (Chan × Expr)) (meas : List MeasDecl) :
     AtomOK (.const id dur amps meas) := by
@@ -141,7 +150,7 @@ theorem atomOK_const (id : Option String) (dur : Expr) (amps : List (Chan × Exp
     · have hemp' : (dictOfList cvs).isEmpty = false := by simpa using hemp
       simp only [hemp', Bool.false_eq_true, if_false, bind_ok, pure_ok] at hw h2
       obtain ⟨w, hw, rfl⟩ := hw
-      obtain ⟨hdw, hcd, hs⟩ := constFromMapping_spec hw
+      obtain ⟨hdw, hcd⟩ := constFromMapping_spec hw
       by_cases hdup : hasDup ((dictOfList cvs).map (·.1))
       · simp [hdup] at h2
       · have hdup' : hasDup ((dictOfList cvs).map (·.1)) = false := by simpa using hdup
@@ -150,31 +159,23 @@ theorem atomOK_const (id : Option String) (dur : Expr) (amps : List (Chan × Exp
         simp only [bind_ok, pure_ok] at h1
         obtain ⟨ms', hms', h1⟩ := h1
         rw [hms] at hms'; cases hms'
-        simp only [List.isEmpty_nil, if_true, pure_bind, hcd, hdw, hw] at h1
-        have h1' : items = (if ms.isEmpty then [] else [Item.measure ms]) ++ [Item.node (leaf w)] := by
-          simp only [bind, Except.bind, pure, Except.pure, Except.ok.injEq] at h1
-          exact h1.symm
-        subst h1'
         have hlook : ∀ c, (((dictOfList cvs).map (fun (x : Chan × Rat) =>
               (x.1, ([{ len := d, v0 := x.2, v1 := x.2 }] : PL)))).lookup c)
             = ((dictOfList cvs).lookup c).map (fun v => ([{ len := d, v0 := v, v1 := v }] : PL)) := by
           intro c
           exact lookup_map_snd (dictOfList cvs) (fun _ v => ([{ len := d, v0 := v, v1 := v }] : PL)) c
         have hne : dictOfList cvs ≠ [] := by simpa using hemp
-        refine ⟨?_, ?_, ?_, ?_, ?_, ?_, ?_⟩
-        · by_cases hm : ms.isEmpty
-          · simp only [hm, if_true, List.nil_append]; exact Blocks.node _ Blocks.nil
-          · simp only [hm]; exact Blocks.meas ms _ Blocks.nil
-        · rw [nodesOf_append]
-          simp only [nodesOf, List.append_eq_nil_iff, List.map_eq_nil_iff]
-          constructor
-          · intro h; simp at h
-          · intro h; exact absurd h hne
-        · rw [nodesOf_append]
-          have : nodesOf (if ms.isEmpty then [] else [Item.measure ms]) = [] := by
-            by_cases hm : ms.isEmpty <;> simp [hm, nodesOf]
-          rw [this]
-          simp [nodesOf, Loop.durationList, leaf_duration, hdw]
+        obtain ⟨hcd, hchans, hs⟩ := hcd
+        simp only [List.isEmpty_nil, if_true, pure_bind, hcd, hdw, hw] at h1
+        have h1' : items = (if ms.isEmpty then [] else [Item.measure ms]) ++ [Item.node (leaf w)] := by
+          simp only [bind, Except.bind, pure, Except.pure, Except.ok.injEq] at h1
+          exact h1.symm
+        subst h1'
+        apply rel_single_leaf w ms d hpos hdw
+        · simpa using hne
+        · intro x
+          rw [hchans]
+          simp [List.map_map, Function.comp_def]
         · intro c pl hc
           simp only [hlook] at hc
           cases hcl : (dictOfList cvs).lookup c with
@@ -182,41 +183,14 @@ theorem atomOK_const (id : Option String) (dur : Expr) (amps : List (Chan × Exp
           | some v =>
             simp only [hcl, Option.map_some, Option.some.injEq] at hc
             subst hc
-            simp [PL.dur]
-        · intro c pl hc
-          simp only [hlook] at hc
-          cases hcl : (dictOfList cvs).lookup c with
-          | none => simp [hcl] at hc
-          | some v =>
-            simp only [hcl, Option.map_some, Option.some.injEq] at hc
-            subst hc
-            intro s hs'
-            simp only [List.mem_singleton] at hs'
-            subst hs'
-            exact hpos
-        · intro c pl hc t ht0 ht
-          simp only [hlook] at hc
-          cases hcl : (dictOfList cvs).lookup c with
-          | none => simp [hcl] at hc
-          | some v =>
-            simp only [hcl, Option.map_some, Option.some.injEq] at hc
-            subst hc
-            rw [nodesOf_append]
-            have : nodesOf (if ms.isEmpty then [] else [Item.measure ms]) = [] := by
-              by_cases hm : ms.isEmpty <;> simp [hm, nodesOf]
-            rw [this]
-            simp only [List.nil_append, nodesOf, Loop.sampleList, leaf_duration, hdw]
-            simp only at ht
-            simp only [ht, if_true]
-            rw [leaf_sample w c t (by rw [hdw]; exact hpos) ht0 (by rw [hdw]; exact ht)]
-            rw [hs c v t hcl]
-            simp [PL.at, ht, Seg.valueAt]
-        · rw [itemsWindows_append]
-          by_cases hm : ms.isEmpty
-          · have : ms = [] := by simpa using hm
-            subst this
-            simp [itemsWindows, nodesOf, leaf_windows]
-          · simp [hm, itemsWindows, nodesOf, leaf_windows, map_shiftW_zero]
+            refine ⟨by simp [PL.dur], ?_, ?_⟩
+            · intro s hs'
+              simp only [List.mem_singleton] at hs'
+              subst hs'
+              exact hpos
+            · intro t _ ht
+              rw [hs c v t hcl]
+              simp [PL.at, ht, Seg.valueAt]
   · simp only [hpos, if_false, pure_ok] at hw h2
     subst hw; subst h2
     simp only [pure_ok] at h1
